@@ -53,11 +53,22 @@ def materialise(d, assignment):
 
 
 def run_case(mon, base, idx, dname, assignment, xname, sh):
-    d = os.path.join(base, b"c%d" % idx, dname)
-    os.mkdir(os.path.dirname(d))
+    real = os.path.join(base, b"c%d" % idx, dname)
+    os.mkdir(os.path.dirname(real))
     case = {"assignment": list(assignment), "explicit": xname, "dirname": hx(dname)}
+    d = real
     try:
-        materialise(d, assignment)
+        materialise(real, assignment)
+        # the layer dir as the caller names it: plainly, through a symlinked ancestor, or with '.' / '..' segments.
+        # The implicit entries are <layer>/bin etc. for the path that was given.
+        style = idx % 4
+        if style == 1:
+            os.symlink(os.path.dirname(real), os.path.dirname(real) + b"-link")
+            d = os.path.join(os.path.dirname(real) + b"-link", dname)
+        elif style == 2:
+            os.mkdir(os.path.join(os.path.dirname(real), b"x"))
+            d = os.path.join(os.path.dirname(real), b"x", b"..", b".", dname)
+        case["path_style"] = ["plain", "symlinked-ancestor", "dot-segments", "plain"][style]
         entries = EXPLICIT[xname]
         if entries:
             rep = mon.call({"op": "write", "dir": hx(d), "entries": enc_entries(entries)})
@@ -98,7 +109,9 @@ def run_case(mon, base, idx, dname, assignment, xname, sh):
             sh.sample({"layer": dict(zip([s.decode() for s in SUBS], assignment)), "explicit": xname,
                        "observed": "15 probes x 4 reads equal to the implicit-path table; env roots byte-identical over 3 read->write cycles"}, cap=1)
     finally:
-        vp.rmtree(os.path.dirname(d))
+        vp.rmtree(os.path.dirname(real))
+        if os.path.lexists(os.path.dirname(real) + b"-link"):
+            os.unlink(os.path.dirname(real) + b"-link")
 
 
 def shard_run(arg):
